@@ -26,7 +26,8 @@ func checkC11(c *Ctx) {
 		"K4 inside cancel, close(done) executes on every path and dominates pendingMu.Lock()",
 		"K5 the only blocking operation performed while pendingMu may be held is the receive loop's delivery select, which also waits on the entry's done",
 		"K6 Close: CAS success dominates conn.Close, close(c.done), wg.Wait in that order; wg.Add dominates the go; the receive loop defers wg.Done and returns on any ReadFrom error",
-		"K7 id reuse: every path through cancel looks the entry up under the lock and deletes it when present",
+		"K7 id reuse: every path through cancel looks the entry up under the lock and deletes it when it is present and is the call's own",
+		"K9 cancel removes only the entry this call registered: the delete is guarded by an identity test against the channels/entry created in send",
 		"C12-K1 (shared) retry driver: only the internal per-try deadline error leads to another try; every other result of a try — the context's error, ErrNoResponse after Close, a write error — is returned at once")
 	r.NotDecided = append(r.NotDecided, "wall-clock bounds and goroutine scheduling", "a PacketConn whose Close does not unblock ReadFrom")
 	r.Expect("C11-clients", 2)
@@ -353,25 +354,93 @@ func c11Cancel(c *Ctx, a *clientAnchors) {
 	wantKey := "field[TransactionID](" + sx.Of(a.send.Params[2]).String() + ")"
 	r.Check(kl == wantKey && kd == wantKey, "C11-K7", key("lookup and delete use the call's transaction id"), c.P.ipos(del), "symx", "lookup key "+kl+", delete key "+kd+", want "+wantKey)
 	okv := extractOf(look, 1)
-	found := false
-	for _, b := range fn.Blocks {
-		if iff := ifOf(b); iff != nil && okv != nil {
-			if tE, _, ok := boolEdgesOf(iff, func(v ssa.Value) bool { return v == ssa.Value(okv) }); ok {
-				found = true
-				// every path from the present edge to return passes the delete
-				first := tE.To.Instrs[0]
-				isDel := func(in ssa.Instruction) bool { return in == ssa.Instruction(del) }
-				r.Check(isDel(first) || everyPathFromHits(first, isDel), "C11-K7", key("present entry is always deleted"), c.P.ipos(del), "every path from the present edge passes delete", "a present entry can survive cancel")
-			}
+	// K7 (restated after F10): the call's OWN entry, when still present, is always deleted. Walk the split graph
+	// remembering whether the path has learnt "ok" and, if cancel tests identity at all, "the entry is ours";
+	// no return may be reached with both learnt and the delete not passed. (The first version demanded that any
+	// present entry be deleted — more than the property states, and exactly the defect F10.)
+	isEntryS := func(s string) bool { return strings.Contains(s, "lookup(field[pending](") }
+	isIdent := func(x atomFact) bool {
+		bo, ok := x.v.(*ssa.BinOp)
+		if !ok || !((bo.Op == token.EQL && x.val) || (bo.Op == token.NEQ && !x.val)) {
+			return false
+		}
+		xs, ys := sx.Of(bo.X).String(), sx.Of(bo.Y).String()
+		return isEntryS(xs) != isEntryS(ys)
+	}
+	hasIdent, hasOk := false, false
+	for _, x := range atomsIn(fn) {
+		if isIdent(x) {
+			hasIdent = true
+		}
+		if okv != nil && x.v == ssa.Value(okv) {
+			hasOk = true
 		}
 	}
-	if !found {
+	if !hasOk {
 		r.Violation("C11-K7", key("presence not tested"), c.P.ipos(look), "cancel does not branch on the lookup result")
+	} else {
+		type st struct {
+			n      sNode
+			ok, id bool
+		}
+		start := st{sNode{fn.Blocks[0], -1}, false, !hasIdent}
+		seen := map[st]bool{start: true}
+		stack := []st{start}
+		survives := false
+		for len(stack) > 0 {
+			cur := stack[len(stack)-1]
+			stack = stack[:len(stack)-1]
+			if cur.n.b == del.Block() {
+				continue // the delete is executed on this path
+			}
+			if _, isRet := cur.n.b.Instrs[len(cur.n.b.Instrs)-1].(*ssa.Return); isRet && cur.ok && cur.id {
+				survives = true
+			}
+			ns, as := sSuccs(cur.n)
+			for i, nx := range ns {
+				nxt := st{nx, cur.ok, cur.id}
+				for _, x := range as[i] {
+					if x.v == ssa.Value(okv) && x.val {
+						nxt.ok = true
+					}
+					if isIdent(x) {
+						nxt.id = true
+					}
+				}
+				if !seen[nxt] {
+					seen[nxt] = true
+					stack = append(stack, nxt)
+				}
+			}
+		}
+		r.Check(!survives, "C11-K7", key("the call's own entry, when present, is always deleted"), c.P.ipos(del), "no return is reachable after learning ok (and entry == own) without passing delete", "the call's own entry can survive cancel: its transaction id stays registered")
 	}
 	if closeCh != nil {
 		li := a.lockFlow(fn)
 		r.Check(li.must[closeCh], "C10-K8", key("transaction channel closed under the lock"), c.P.ipos(closeCh), "must-hold", "close(p.ch) without pendingMu held")
 	}
+	// K9 identity: the entry found under the call's transaction id is removed only if it is the entry this call
+	// registered. Between close(done) and Lock the receive loop may already have retired this call's entry
+	// (its `<-p.done` case) and another call may have registered the same id: removing by id alone closes the
+	// channel of that later, unrelated call, which then returns (nil, nil).
+	gc := newGuardCache(c)
+	isEntry := func(s string) bool { return strings.Contains(s, "lookup(field[pending](") }
+	identity := false
+	for _, f := range gc.of(del.Block()) {
+		bo, ok := f.cond.(*ssa.BinOp)
+		if !ok || !((bo.Op == token.EQL && f.pol) || (bo.Op == token.NEQ && !f.pol)) {
+			continue
+		}
+		xs, ys := sx.Of(bo.X).String(), sx.Of(bo.Y).String()
+		own := func(s string) bool {
+			return !isEntry(s) && (strings.HasPrefix(s, "makechan") || strings.HasPrefix(s, "alloc(") || strings.HasPrefix(s, "free("))
+		}
+		if (isEntry(xs) && own(ys)) || (isEntry(ys) && own(xs)) {
+			identity = true
+		}
+	}
+	r.Check(identity, "C11-K9", key("only the entry this call registered is removed (identity test before delete)"), c.P.ipos(del), "delete is guarded by entry == own entry / entry.done == done / entry.ch == ch",
+		"cancel deletes whatever entry is registered under the transaction id: if the receive loop already retired this call's entry and a later call registered the same id, that call's channel is closed and it returns (nil, nil) — demonstrated in findings/F10-cancel-by-id")
 }
 
 // blocking operations while the lock may be held
